@@ -5,6 +5,8 @@ extern "C" {
 #include "timer_types.h"
 void CB_Timer_interrupt_handler(::Timer *self);
 }
+#define BRIDGE_WANT_Timer
+#define BRIDGE_WANT_CoreTiming_Callbacks
 #include "timer_bridge.inc"
 
 namespace {
